@@ -265,9 +265,11 @@ def finish(pid, tier, level, rules_run, obligations, t0, explanation, assumption
     }
     if notes:
         ev["notes"] = notes
-    os.makedirs(os.path.join(VERIF, "evidence"), exist_ok=True)
-    with open(os.path.join(VERIF, "evidence", pid + ".json"), "w") as f:
-        json.dump(ev, f, indent=1)
+    if not (os.environ.get("VERIF_REPO") and os.environ.get("VERIF_NO_EVIDENCE")):
+        # evidence always describes /repo itself; experiments on scratch trees (tools/try_refactor.sh) do not overwrite it
+        os.makedirs(os.path.join(VERIF, "evidence"), exist_ok=True)
+        with open(os.path.join(VERIF, "evidence", pid + ".json"), "w") as f:
+            json.dump(ev, f, indent=1)
     print("result: %s (exit %d), %.2fs" % ({0: "HELD", 1: "VIOLATION", 2: "ANALYSIS-BROKEN"}[rc], rc, time.time() - t0))
     return rc
 
